@@ -23,11 +23,17 @@ Q = "?"
 
 
 def key_tv(atom: str, rows: bool = False) -> TV:
-    return TV(kind="tensor", axes=("R", Q) if rows else (Q,), origin=frozenset([atom]), note="key", alias=True, deg=None, dtype="M")
+    # dtype tag "dt:<collection>": the dtype of the tensors of that collection (outputs and parameters may differ)
+    return TV(kind="tensor", axes=("R", Q) if rows else (Q,), origin=frozenset([atom]), note="key", alias=True, deg=None, dtype="dt:" + atom)
 
 
-def opaque(origin=frozenset(), note="", axes=(Q,), **kw) -> TV:
-    return TV(kind="tensor", axes=axes, origin=frozenset(origin), note=note, deg=None, dtype="M", **kw)
+def opaque(origin=frozenset(), note="", axes=(Q,), dtype="M", **kw) -> TV:
+    return TV(kind="tensor", axes=axes, origin=frozenset(origin), note=note, deg=None, dtype=dtype, **kw)
+
+
+def dt_join(*ds) -> str:
+    ds = [d for d in ds if d]
+    return ds[0] if ds and all(d == ds[0] for d in ds) else ("Mixed:" + "|".join(sorted(set(ds))) if ds else "M")
 
 
 def is_opaque(v) -> bool:
@@ -242,7 +248,7 @@ class PipeOps(FullOps):
 
     def matmul(self, a, b, node):
         if Q in a.axes or Q in b.axes:
-            return opaque(a.origin | b.origin)
+            return opaque(a.origin | b.origin, dtype=dt_join(a.dtype, b.dtype))
         return super().matmul(a, b, node)
 
     # ------------------------------------------------------------------ attributes
@@ -253,7 +259,7 @@ class PipeOps(FullOps):
                 return ListV(items=None, elem=TV(kind="pyint", note="dim"), kind="tuple", order=(("shape:" + "+".join(sorted(t.origin)),), "same"),
                              length=None)
             if attr == "grad":
-                return opaque(t.origin, note="grad-field")
+                return opaque(t.origin, note="grad-field", dtype=t.dtype)
             if attr in ("grad_fn",):
                 return TV(kind="tensor", axes=(), note="maybe-none", origin=t.origin)
             if attr in ("requires_grad", "is_leaf", "retains_grad"):
@@ -261,7 +267,7 @@ class PipeOps(FullOps):
             if attr in ("ndim",):
                 return TV(kind="pyint", note="ndim", origin=t.origin)
             if attr in ("dtype", "device"):
-                return MetaV(attr, "M" if attr == "dtype" else "")
+                return MetaV(attr, t.dtype if attr == "dtype" else "")
             if attr in ("T", "mT"):
                 self.pev("axis_reorder", node, what=attr)
                 return t
@@ -305,7 +311,7 @@ class PipeOps(FullOps):
     def store_attr(self, obj, attr, v, st, env, aug):
         if isinstance(obj, TV) and attr == "grad":
             vt = tv_of(v)
-            self.pev("grad_write", st, aug=aug, target=sorted(obj.origin), target_note=obj.note, value=repr(v),
+            self.pev("grad_write", st, aug=aug, target=sorted(obj.origin), target_note=obj.note, value=repr(v), value_dtype=vt.dtype if vt is not None else None, target_dtype=obj.dtype,
                      fresh=bool(vt is not None and not vt.alias), value_origin=sorted(vt.origin) if vt is not None else None,
                      value_is_none=isinstance(v, Const) and v.v is None)
             return
@@ -386,7 +392,7 @@ class PipeOps(FullOps):
                 piece = t.but(layout=tuple(l for l in t.layout if l[0] != d), alias=True)
                 return ListV(items=None, elem=piece, kind="tuple", order=lst.order)
             self.pev("opaque_method", node, name=name)
-            return ListV(items=None, elem=opaque(t.origin), kind="tuple")
+            return ListV(items=None, elem=opaque(t.origin, dtype=t.dtype), kind="tuple")
         if name in ("backward", "retain_grad", "requires_grad_", "register_hook", "detach_", "zero_"):
             self.pev("autograd_state", node, what=name, target=sorted(t.origin), target_note=t.note)
             return NONE if name != "requires_grad_" else t
@@ -394,9 +400,12 @@ class PipeOps(FullOps):
             self.pev("inplace", node, alias=t.alias, target=name, target_note=t.note, target_origin=sorted(t.origin))
             return t
         if name in ("sum", "mean", "abs", "norm", "float", "double", "isfinite", "all", "any", "item"):
-            return opaque(t.origin)
+            return opaque(t.origin, dtype=t.dtype)
+        if name in ("new_empty", "new_zeros", "new_ones", "new_full", "new_tensor"):
+            self.pev("create", node, fn=name, like=sorted(t.origin), dtype=t.dtype)
+            return opaque(frozenset(), note=name, dtype=t.dtype, axes=("R", Q))
         self.pev("opaque_method", node, name=name)
-        return opaque(t.origin)
+        return opaque(t.origin, dtype=t.dtype)
 
     def shape_arg(self, a) -> str:
         c = self.const_int(a)
@@ -470,14 +479,18 @@ class PipeOps(FullOps):
                 dd = 0 if fn == "vstack" else (d if d is not None and d >= 0 else -1)
                 shift = 0 if fn == "vstack" and isinstance(e, TV) and e.axes and e.axes[0] in ("K", "R") else 1
                 lay = ((dd, order, fn),) + tuple((l[0] + (shift if l[0] >= dd >= 0 else 0), l[1], l[2]) for l in inner)
-                return opaque(org, axes=("R", Q), layout=lay)
+                return opaque(org, axes=("R", Q), layout=lay, dtype=e.dtype if isinstance(e, TV) else "M")
             lay = ((d if d is not None else 0, order, fn),) + tuple(l for l in inner if l[0] != d)
             axes = (Q,) if (d or 0) == 0 and not (isinstance(e, TV) and len(e.axes) > 1) else ("R", Q)
-            return opaque(org, axes=axes, layout=lay)
+            return opaque(org, axes=axes, layout=lay, dtype=e.dtype if isinstance(e, TV) else "M")
         if fn in ("zeros_like", "ones_like", "empty_like", "zeros", "ones", "empty", "full", "full_like", "rand_like", "randn_like"):
             src = tv_of(a0)
             self.pev("create", node, fn=fn, like=sorted(src.origin) if isinstance(src, TV) else None)
-            return opaque(src.origin if isinstance(src, TV) and fn.endswith("_like") else frozenset(), note=fn, axes=src.axes if isinstance(src, TV) and fn.endswith("_like") else (Q,))
+            dk = kwargs.get("dtype")
+            dt = src.dtype if isinstance(src, TV) and fn.endswith("_like") else (dk.tag if isinstance(dk, MetaV) and dk.tag else "Default")
+            if isinstance(src, TV) and fn.endswith("_like") and src.note == "key" and fn.startswith("zeros"):
+                dt = "dt:=key"  # zero gradient materialised for the corresponding input
+            return opaque(src.origin if isinstance(src, TV) and fn.endswith("_like") else frozenset(), note=fn, axes=src.axes if isinstance(src, TV) and fn.endswith("_like") else (Q,), dtype=dt)
         t0 = tv_of(a0)
         if t0 is not None and is_opaque(t0):
             return self.tensor_method(t0, fn, args[1:], kwargs, node, env)
@@ -513,7 +526,8 @@ class PipeOps(FullOps):
         unused = isinstance(vals.get("allow_unused"), Const) and vals["allow_unused"].v is True
         if isinstance(vals.get("materialize_grads"), Const) and vals["materialize_grads"].v is True:
             unused = False  # torch fills the missing gradients with zeros itself
-        elem = opaque(frozenset(["autograd"]) | (self.atoms_of(lst) if isinstance(lst, ListV) else frozenset()), note="optional" if unused else "")
+        in_dt = "dt:=key"  # each gradient has the dtype of the input it belongs to
+        elem = opaque(frozenset(["autograd"]) | (self.atoms_of(lst) if isinstance(lst, ListV) else frozenset()), note="optional" if unused else "", dtype=in_dt)
         if isinstance(lst, ListV):
             if lst.items is not None:
                 return ListV(items=tuple(elem for _ in lst.items), kind="tuple", order=lst.order)
